@@ -1,18 +1,8 @@
 #!/usr/bin/env python3
 """C16 - export and rendering are faithful, bounded and independent of the output target."""
-import json, os, re, sys
+import os, re, subprocess, sys
 sys.path.insert(0, os.path.join(os.path.dirname(os.path.abspath(__file__)), "..", "lib"))
 import verif
-
-# known_findings.C16.json is merged into the shared list (lib/verif.py only reads known_findings.json)
-_orig_load_known = verif.load_known
-def _load_known():
-    k = _orig_load_known()
-    p = os.path.join(verif.VERIF, "known_findings.C16.json")
-    if os.path.exists(p):
-        k = dict(k); k["findings"] = list(k.get("findings", [])) + json.load(open(p)).get("findings", [])
-    return k
-verif.load_known = _load_known
 
 BIG = 1000000000
 WIDE, OVER = (1, 3, 7), (4, 5)
@@ -88,8 +78,8 @@ class C16(verif.Spec):
     partial_note = ("export write layer, vbi_print_page_region (table mode) and the byte index sets of the two region renderers "
                     "are modelled and proved; html/png/xpm/ppm/text encoders are not modelled (target agreement and bounds are "
                     "judged by the oracle on the real code); region_equals_full is proved as a run-list translation lemma, the "
-                    "last-write-wins pixel equality is checked by the oracle only; render_in_rectangle is false on the unchanged "
-                    "tree for a wide character in the last region column (F14, counterexample proved)")
+                    "last-write-wins pixel equality is checked by the oracle only; render_in_rectangle holds at full strength for "
+                    "the current tree (F14 repaired); 'a too small buffer makes vbi_print_page_region fail' is false until F27a is repaired")
     assumptions = ["iconv is a stateless function of the UCS-2 code that writes at most the space it is given (no BOM, no //TRANSLIT)",
                    "rowstride is -1 or a multiple of the pixel size with rowstride >= width * cell width * pixel size; canvas has the documented size",
                    "the region lies inside the page (documented precondition of the draw functions; the print function checks it itself)",
@@ -97,29 +87,19 @@ class C16(verif.Spec):
                    "glibc: realloc(p,0) frees; vsnprintf never returns < 0 for %s"]
     trusted_base = ["harness/export_harness.c + lean/Driver/Export.lean (correspondence: per-op offset/capacity/target trace of the write layer, "
                     "print output bytes, canonical digest of the written byte runs of the renderers)",
-                    "translate/gen_export.py: Generated/ExportCfg.lean flags (F14 / F12 repaired?) come from probing the compiled code",
-                    "fault injection in the harness: realloc limit inside _vbi_grow_vector_capacity, fopencookie / RLIMIT_FSIZE sinks"]
-    open_statements = ["Zvbi.Export.Spec.region_equals_full_stmt", "Zvbi.Export.Spec.render_in_rectangle_stmt (false without the F14 repair)",
-                       "Zvbi.Export.Spec.print_region_exact_small_buffer_stmt (false: truncation replaces a character by a space)"]
+                    "translate/gen_export.py: Generated/ExportCfg.lean flags (F14 / F12 / F27a / F27b repaired?) come from probing the compiled code",
+                    "fault injection in the harness (realloc limit inside _vbi_grow_vector_capacity, fopencookie / RLIMIT_FSIZE sinks) is used "
+                    "for correspondence only: the property does not quantify over allocation / write failure, so such cases are never judged "
+                    "by the oracle, and cases where the model predicts an abort (F26) are not run"]
+    open_statements = ["Zvbi.Export.Spec.region_equals_full_stmt",
+                       "Zvbi.Export.Spec.print_region_exact_small_buffer_stmt currentCfg (false until F27a is repaired; proved for the repaired code)"]
     rule = ("cases from corpus + seeded generators (synthetic exporters with fault injection; random pages with enlarged, concealed, "
             "DRCS cells; print / draw / export ops); non-trivial = the implementation produced at least one non-reject output")
 
     def __init__(self):
         self._outlen = {}
-        self._flags = None
 
     # ------------------------------------------------------------------ generators
-    def flags(self):
-        """which repairs are present in the tree under test (probe of the compiled code)"""
-        if self._flags is None:
-            self._flags = {"wideclip": 0, "nullguard": 0}
-            exe, _ = verif.build_harness(self.harness)
-            if exe:
-                out, _ = verif.run_side([exe], [["probe"]], 10.0)
-                m = re.search(r"wideclip=(\d) nullguard=(\d)", " ".join(out.get(0, [])))
-                if m: self._flags = {"wideclip": int(m.group(1)), "nullguard": int(m.group(2))}
-        return self._flags
-
     def gen_write_case(self, rng, mode):
         ops, first = [], True
         n = rng.choice([0, 1, 2, 3, 5, 8, 13, 30]) if mode != "big" else rng.randrange(2, 7)
@@ -190,9 +170,7 @@ class C16(verif.Spec):
                     if rng.random() < 0.7: ops.append("drcs %d 1" % pl)
                     put(r, c, 0xF000 + pl * 64 + rng.randrange(64), 0, fl)
             elif not wellformed:
-                s = rng.randrange(8)            # malformed: any size anywhere except wide in the last page column
-                if s in WIDE and c == cols - 1: s = 0
-                put(r, c, u, s, fl)
+                put(r, c, u, rng.randrange(8), fl)            # malformed: any size anywhere
         return ops, pg
 
     def gen_region(self, rng, pg, allow_cut):
@@ -217,7 +195,7 @@ class C16(verif.Spec):
             if rng.random() < 0.08: col, row, w, h = rng.choice([(-1, 0, 2, 2), (0, 0, pg.cols + 1, 1), (0, pg.rows, 1, 1), (0, 0, 0, 1), (0, 0, 1, 0), (1, 1, -1, 1)])
             ops.append("%s %s %d %d %d %d %d" % ("print" if rng.random() < 0.85 else "printnt", fmt, size, col, row, w, h))
         for _ in range(rng.randrange(1, 4)):
-            col, row, w, h = self.gen_region(rng, pg, False)
+            col, row, w, h = self.gen_region(rng, pg, rng.random() < 0.3)
             cc = rng.random() < 0.2
             cw = 16 if cc else 12
             fmt = rng.choice(["rgba", "rgba", "pal8", "pal8", "yuv420", "rgb16", "bgra"])
@@ -254,10 +232,19 @@ class C16(verif.Spec):
         cases = [["consts", "probe"]]
         for _ in range(700 * N): cases.append(self.gen_write_case(rng, "plain"))
         for _ in range(60 * N): cases.append(self.gen_write_case(rng, "big"))
-        for _ in range(500 * N): cases.append(self.gen_write_case(rng, "fault"))
+        fault = [self.gen_write_case(rng, "fault") for _ in range(500 * N)]
+        # the property does not quantify over allocation failure: cases in which the model predicts an abort
+        # under injected OOM (assert after a failed MEM->ALLOC switch, F26, an observation) are not run
+        p = subprocess.run([verif.model_exe(), "export"], input=verif.flatten(fault).encode(), stdout=subprocess.PIPE, timeout=600)
+        mo = verif.split_cases(p.stdout.decode())
+        self.skipped_model_abort = 0
+        for i, c in enumerate(fault):
+            if any("FAULT" in l for l in mo.get(i, [])): self.skipped_model_abort += 1
+            else: cases.append(c)
+        self.extra_coverage = {"fault_injection_cases_skipped_model_predicts_abort": self.skipped_model_abort}
         for _ in range(500 * N): cases.append(self.gen_page_case(rng, tier))
         for _ in range(3): cases.append(self.gen_f14_case(rng))
-        # F12 shapes: NULL buffer size query; empty write into a NULL buffer
+        # F12 shapes (repaired): NULL buffer size query; empty write into a NULL buffer
         cases.append(["begin mem null %d %d" % (BIG, BIG), "write 414243", "end"])
         cases.append(["begin alloc 0 %d %d" % (BIG, BIG), "write -", "putc 65", "end"])
         # malformed op lines (both sides must reject them the same way)
@@ -290,6 +277,8 @@ class C16(verif.Spec):
     def oracle_write(self, begin, ops, line):
         t = begin.split()
         tgt, size, heap, sink = t[1], t[2], int(t[3]), int(t[4])
+        if heap < BIG or sink < BIG:
+            return None        # injected failure: outside the property's quantifier, correspondence only
         out = b"".join(op_bytes(o) for o in ops)
         L = len(out)
         reserve = max([int(o.split()[1]) for o in ops if o.startswith("direct")] + [0])
@@ -406,18 +395,14 @@ class C16(verif.Spec):
                 return "F14:wide-character-in-last-column-drawn-24px"
             if "null pointer passed as argument" in what and t and t[0] == "end":
                 return "F12:memcpy-null-pointer-size-0"
-            if "offset <= capacity" in what and t and t[0] == "end":
-                b = [l for l in case[:i] if l.startswith("begin")]
-                if b and b[-1].split()[1] == "mem" and int(b[-1].split()[3]) < BIG:
-                    return "F18:assert-after-failed-mem-to-alloc-switch-under-oom"
             return re.sub(r"\d+", "N", what)[:160]
         if what == "render writes outside the region rectangle":
             for i, t, pg in pages_of(case):
                 if t[0] == "draw" and self.f14_shape(t, pg): return "F14:wide-character-in-last-column-drawn-24px"
         if what.startswith("print: output differs from the page text (at-sign"):
-            return "F17b:print-unicode-at-sign-heuristic-replaces-character"
+            return "F27b:print-unicode-at-sign-heuristic-replaces-character"
         if what.startswith("print: buffer too small but nonzero result"):
-            return "F17a:print-region-small-buffer-replaces-character-by-space"
+            return "F27a:print-region-small-buffer-replaces-character-by-space"
         return re.sub(r"\d+", "N", what)[:160]
 
 
